@@ -27,6 +27,9 @@ structure Config where
   removeEmpty : Bool := true
   shapesNs : String := "http://weso.es/shapes/"
   detectMinIri : Bool := false
+  /-- shape-map mode: the labels of the shape map (`_original_target_nodes`), which the profiler never
+  removes as empty; class-target modes leave this empty -/
+  protectedLabels : List String := []
 deriving Repr, Inhabited
 
 end Shexer
